@@ -324,3 +324,15 @@ func (P *Program) chanInvByLabel(label string) *ChanInvDecl {
 	}
 	return nil
 }
+
+func (P *Program) semaphoresOfType(t types.Type) []string {
+	nt, ok := t.(*types.Named)
+	if !ok || nt.Obj().Pkg() == nil {
+		return nil
+	}
+	ps := P.Specs[nt.Obj().Pkg().Path()]
+	if ps == nil {
+		return nil
+	}
+	return ps.TypeSemaphores[nt.Obj().Name()]
+}
